@@ -434,6 +434,16 @@ func (r *rewriter) run() {
 			} else if r.isBuiltin(n, "close") && len(n.Args) == 1 {
 				n.Fun = r.vrt("Close")
 			}
+		case *ast.IncDecStmt:
+			if st := r.splitRMW(n.X, n.Tok, nil, n); st != nil {
+				c.Replace(st)
+			}
+		case *ast.AssignStmt:
+			if len(n.Lhs) == 1 && len(n.Rhs) == 1 && n.Tok != token.ASSIGN && n.Tok != token.DEFINE {
+				if st := r.splitRMW(n.Lhs[0], n.Tok, n.Rhs[0], n); st != nil {
+					c.Replace(st)
+				}
+			}
 		case *ast.ForStmt:
 			if tok, ok := r.cleanLoops[n]; ok {
 				c.InsertBefore(&ast.AssignStmt{Lhs: []ast.Expr{ast.NewIdent(tok)}, Tok: token.DEFINE, Rhs: []ast.Expr{r.call("LoopEnter")}})
@@ -587,6 +597,82 @@ func (r *rewriter) findSleepLoops() {
 		}
 		return true
 	})
+}
+
+// splitRMW makes the non-atomicity of `x.f++` / `x.f += e` on a struct field visible: the read and
+// the write of a read-modify-write on shared memory are two steps in Go, so a scheduling point is
+// placed between them (`t := x.f; vrt.Touch; x.f = t op e`). Only fields reached through a
+// pointer or a package-level variable are split (locals cannot be shared without one of those).
+func (r *rewriter) splitRMW(lhs ast.Expr, tok token.Token, rhs ast.Expr, at ast.Node) ast.Stmt {
+	sel, ok := lhs.(*ast.SelectorExpr)
+	if !ok {
+		return nil
+	}
+	selInfo := r.pkg.TypesInfo.Selections[sel]
+	if selInfo == nil || selInfo.Kind() != types.FieldVal {
+		return nil
+	}
+	// the base must be a plain chain of identifiers/selectors (no calls, no index side effects)
+	base := sel.X
+	for {
+		switch b := base.(type) {
+		case *ast.SelectorExpr:
+			base = b.X
+			continue
+		case *ast.Ident:
+		case *ast.StarExpr:
+			base = b.X
+			continue
+		case *ast.ParenExpr:
+			base = b.X
+			continue
+		default:
+			return nil
+		}
+		break
+	}
+	t := r.typeOf(lhs)
+	if t == nil {
+		return nil
+	}
+	if _, isBasic := t.Underlying().(*types.Basic); !isBasic {
+		return nil
+	}
+	// a field of a local struct VALUE (not reached through a pointer) is not shared
+	if id, ok := base.(*ast.Ident); ok {
+		if obj, ok := r.pkg.TypesInfo.Uses[id].(*types.Var); ok && obj.Parent() != obj.Pkg().Scope() {
+			if _, isPtr := obj.Type().Underlying().(*types.Pointer); !isPtr && !selInfo.Indirect() {
+				return nil
+			}
+		}
+	}
+	var op token.Token
+	var operand ast.Expr
+	switch tok {
+	case token.INC:
+		op, operand = token.ADD, &ast.BasicLit{Kind: token.INT, Value: "1"}
+	case token.DEC:
+		op, operand = token.SUB, &ast.BasicLit{Kind: token.INT, Value: "1"}
+	case token.ADD_ASSIGN:
+		op, operand = token.ADD, rhs
+	case token.SUB_ASSIGN:
+		op, operand = token.SUB, rhs
+	case token.MUL_ASSIGN:
+		op, operand = token.MUL, rhs
+	case token.OR_ASSIGN:
+		op, operand = token.OR, rhs
+	case token.AND_ASSIGN:
+		op, operand = token.AND, rhs
+	default:
+		return nil
+	}
+	tmp := r.fresh("rmw")
+	name := "rmw:" + sel.Sel.Name
+	return &ast.BlockStmt{List: []ast.Stmt{
+		&ast.AssignStmt{Lhs: []ast.Expr{ast.NewIdent(tmp)}, Tok: token.DEFINE, Rhs: []ast.Expr{lhs}},
+		&ast.ExprStmt{X: r.call("Touch", &ast.BasicLit{Kind: token.STRING, Value: strconv.Quote(name)}, ast.NewIdent("true"))},
+		&ast.AssignStmt{Lhs: []ast.Expr{lhs}, Tok: token.ASSIGN, Rhs: []ast.Expr{&ast.BinaryExpr{X: ast.NewIdent(tmp), Op: op, Y: &ast.ParenExpr{X: operand}}}},
+	}}
 }
 
 func (r *rewriter) rewriteGo(g *ast.GoStmt) ast.Stmt {
@@ -754,8 +840,12 @@ func (r *rewriter) probedName(e ast.Expr) string {
 				return ""
 			}
 			for _, f := range r.fields {
-				if f.typ != "" && f.field == v.Name() && f.typ == named.Obj().Name() && named.Obj().Pkg() != nil && named.Obj().Pkg().Path() == f.pkg {
-					return f.typ + "." + f.field
+				if f.typ != "" && (f.field == v.Name() || f.field == "*") && f.typ == named.Obj().Name() && named.Obj().Pkg() != nil && named.Obj().Pkg().Path() == f.pkg {
+					// shim objects (mutexes, wait groups, ...) are scheduling points themselves
+					if tn, ok := v.Type().(*types.Named); ok && tn.Obj().Pkg() != nil && (tn.Obj().Pkg().Path() == "sync" || tn.Obj().Pkg().Path() == "sync/atomic") {
+						return ""
+					}
+					return f.typ + "." + v.Name()
 				}
 			}
 			return ""
